@@ -12,6 +12,6 @@ for d in sorted(glob.glob(os.path.join(os.path.dirname(os.path.dirname(os.path.a
             title = l.split(":", 1)[-1].strip() if l.lower().startswith("mutation") else l
             break
     files = ", ".join(os.path.basename(f) for f in m["files_changed"])
-    rows.append("| %s | %s | %s | %s | %s |" % (m["id"], files, (m.get("summary") or title)[:160].replace("|", "/"), ", ".join(m["detected_by"]) or "**not yet**", (m.get("note") or "").replace("|", "/")[:230]))
+    rows.append("| %s | %s | %s | %s | %s |" % (m["id"], files, (m.get("summary") or title)[:160].replace("|", "/"), (("was " + ", ".join(m["detected_by"]) + "; now no effect (fix " + m["neutralised_by"] + ")") if m.get("neutralised_by") else (", ".join(m["detected_by"]) or "**not yet**")), (m.get("note") or "").replace("|", "/")[:330]))
 print("| id | file(s) changed | what it does | caught by | remark |\n|---|---|---|---|---|")
 print("\n".join(rows))
